@@ -106,15 +106,23 @@ pub(crate) fn unbond(
             BOND.save(deps.storage, (&info.sender, &denom), &unbond)?;
         }
 
-        // record the unbonding
+        // record the unbonding. Unbondings are keyed by the block time, so several of them made by
+        // the same address for the same denom within one block share a record and must add up.
+        let mut unbonding = UNBOND
+            .may_load(deps.storage, (&info.sender, &denom, timestamp.nanos()))?
+            .unwrap_or(Bond {
+                asset: Asset {
+                    amount: Uint128::zero(),
+                    ..asset.clone()
+                },
+                weight: Uint128::zero(),
+                timestamp,
+            });
+        unbonding.asset.amount = unbonding.asset.amount.checked_add(asset.amount)?;
         UNBOND.save(
             deps.storage,
             (&info.sender, &denom, timestamp.nanos()),
-            &Bond {
-                asset: asset.clone(),
-                weight: Uint128::zero(),
-                timestamp,
-            },
+            &unbonding,
         )?;
 
         // update global values
